@@ -6,6 +6,7 @@ use std::panic::{AssertUnwindSafe, catch_unwind};
 
 mod util;
 mod c14;
+mod c15;
 mod c20;
 
 fn main() {
@@ -39,6 +40,7 @@ fn main() {
 fn dispatch(suite: &str, case: &Value) -> Value {
     match suite {
         "c14" => c14::run(case),
+        "c15" => c15::run(case),
         "c20" => c20::run(case),
         _ => panic!("unknown suite {suite}"),
     }
